@@ -24,7 +24,7 @@ RULE = (
     "reference-encoder-written) with bit flips, byte inserts / deletes, splices of two streams, truncations, duplicated "
     "frames; (c) structure-aware hostile streams built with my wire codec: declared table sizes 4097..2^32-1, frame / row / "
     "string lengths up to 2^62, quoted triples nested 1..300, options rows in odd places, 10^4 empty frames, ids 2^32-1, "
-    "invalid UTF-8, over-long varints, short typed literals that declare huge magnitudes (1E+200000000 and the like), plus four fixed large inputs (4*10^5 leading / 10^6 / 3*10^5 trailing empty frames, "
+    "invalid UTF-8, over-long varints, short typed literals that declare huge magnitudes (1E+200000000 and the like; alone, and repeated by following statements through omitted slots), plus four fixed large inputs (4*10^5 leading / 10^6 / 3*10^5 trailing empty frames, "
     "5*10^4 rows in one frame); each through parse_jelly_flat, parse_jelly_grouped and parse_jelly_to_graph of both "
     "integrations, from BytesIO, from a non-seekable short-reading raw source and from a BufferedReader over a non-seekable source whose first reads deliver 1 and 2 bytes; (d) atheris coverage-guided campaigns on "
     "the four flat / grouped entry points with a structure-aware custom mutator, seeded and empty corpus. Oracle, enforced "
@@ -147,8 +147,21 @@ def hostile(draw):
                  "nonNegativeInteger": ["1" + "0" * 5000], "boolean": ["maybe", "1" * 100]}
         dt = draw(st.sampled_from(sorted(lexes)))
         lexv = draw(st.sampled_from(lexes[dt]))
-        rows = [("options", {**opts, "physical_type": 1}), ("datatype", 0, xsd + dt),
-                ("triple", {"s": ("bnode", "a"), "p": ("bnode", "b"), "o": ("lit", lexv, ("dt", 1))})]
+        big_lit = ("lit", lexv, ("dt", 1))
+        where = draw(st.sampled_from(["o", "o", "s", "quoted", "graph"]))
+        first = {"s": ("bnode", "a"), "p": ("bnode", "b"), "o": big_lit}
+        if where == "s":
+            first = {"s": big_lit, "p": ("bnode", "b"), "o": ("bnode", "c")}
+        elif where == "quoted":
+            first = {"s": ("bnode", "a"), "p": ("bnode", "b"), "o": ("triple", {"s": ("bnode", "x"), "p": ("bnode", "y"), "o": big_lit})}
+        rows = [("options", {**opts, "physical_type": 1}), ("datatype", 0, xsd + dt), ("triple", first)]
+        if where == "graph":
+            rows = [("options", {**opts, "physical_type": 2}), ("datatype", 0, xsd + dt),
+                    ("quad", {"s": ("bnode", "a"), "p": ("bnode", "b"), "o": ("bnode", "c"), "g": big_lit})]
+        # followed by statements that repeat the term by leaving the slot out (what every writer does)
+        for k in range(draw(st.integers(0, 3))):
+            nxt = {"p": ("bnode", "p%d" % k)} if where != "graph" else {"s": ("bnode", "s%d" % k)}
+            rows.append(("triple" if where != "graph" else "quad", nxt))
         return wire.enc_stream([{"rows": rows, "metadata": []}], True)
     if kind == "huge_tables":
         field = draw(st.sampled_from(["max_name_table_size", "max_prefix_table_size", "max_datatype_table_size"]))
@@ -506,6 +519,12 @@ def fixed_hostile():
         rows = [("options", opts), ("datatype", 0, "http://www.w3.org/2001/XMLSchema#decimal"),
                 ("triple", {"s": ("bnode", "a"), "p": ("bnode", "b"), "o": ("lit", lexv, ("dt", 1))})]
         out.append(wire.enc_stream([{"rows": rows, "metadata": []}], True))
+        # ... and the same literal repeated by the following statements (slot left out), in the object and in the subject
+        rep = rows + [("triple", {"p": ("bnode", "c")}), ("triple", {"s": ("bnode", "d")})]
+        out.append(wire.enc_stream([{"rows": rep, "metadata": []}], True))
+        subj = rows[:2] + [("triple", {"s": ("lit", lexv, ("dt", 1)), "p": ("bnode", "b"), "o": ("bnode", "c")}),
+                           ("triple", {"o": ("bnode", "e")})]
+        out.append(wire.enc_stream([{"rows": subj, "metadata": []}], True))
     return out
 
 
